@@ -1584,7 +1584,10 @@ class Parameter(_ParameterBase):
                 # The assignment starts or ends a link: reject an invalid
                 # value before the links of the object are touched
                 if resolved:
-                    self._validate(val)
+                    # (what is validated further down: the value as the
+                    # deprecated set_hook, if there is one, converts it)
+                    hook = getattr(self, 'set_hook', None)
+                    self._validate(val if hook is None else hook(obj, val))
                 self._validate_settable(obj, val, ref)
             if ref is not None:
                 obj.param._update_ref(name, ref)
@@ -2156,7 +2159,7 @@ class Parameters:
         # The name is a constant like any other: when no name was generated
         # (a class declaring its own default) the instance keeps the default
         # it was built with
-        if 'name' in objects and 'name' not in self._param__private.values:
+        if 'name' in objects and objects['name'].constant and 'name' not in self._param__private.values:
             self_._instantiate_param(objects['name'], deepcopy=False)
 
         ## keyword arg setting
@@ -4682,12 +4685,16 @@ class ParameterizedMetaclass(type):
                 type.__setattr__(mcs,attribute_name,parameter)
                 # the class and its subclasses are now governed by the copy
                 mcs._clear_parameters_cache()
+                previous = parameter.default
                 try:
                     parameter.__set__(None,value)
                 except Exception:
-                    # a rejected value must not leave the copy behind
-                    type.__delattr__(mcs,attribute_name)
-                    mcs._clear_parameters_cache()
+                    # a rejected value must not leave the copy behind (a
+                    # watcher that raises after the value was stored does
+                    # not undo the assignment, here as on the owning class)
+                    if parameter.default is previous:
+                        type.__delattr__(mcs,attribute_name)
+                        mcs._clear_parameters_cache()
                     raise
             else:
                 mcs.__dict__[attribute_name].__set__(None,value)
@@ -4723,7 +4730,8 @@ class ParameterizedMetaclass(type):
         Drop the cached name -> Parameter mapping of this class and of
         all its subclasses, which look their Parameters up through it.
         """
-        mcs._param__private.params.clear()
+        # (a new dict: one handed out earlier, or being iterated, stays as it is)
+        mcs._param__private.params = {}
         for subclass in type.__subclasses__(mcs):
             subclass._clear_parameters_cache()
 
